@@ -61,6 +61,8 @@ class Judge:
         self.flagged = False
         self.folded = False
         self.updown_fired = False
+        self.type_changed = False
+        self.cur_types = None
 
     def env_for(self, syms):
         env = {}
@@ -113,7 +115,8 @@ class Judge:
             names = {id(s): s.operands[0] for s in syms + extra}
             assign = {names[k]: numpy.asarray(v)[j] for k, v in env.items() if k in names}
             self.flagged = True
-            rec.violation(f"{where}:float:{rule}", dict(rule=rule, before=describe(before), after=describe(after), assignment=assign,
+            tc = getattr(self, "cur_types", None) if where == "step" else None
+            rec.violation(f"{where}:float:{rule}" + (":type-change" if tc else ""), dict(before_type=tc[0] if tc else None, after_type=tc[1] if tc else None, rule=rule, before=describe(before), after=describe(after), assignment=assign,
                                                        before_value=pick(a, j), after_value=pick(b, j), symbol_types={s.operands[0]: str(s.operands[1]) for s in syms}))
         rec.count("programs:judged-float" if where == "program" else "steps:judged-float")
         # exact clause (whole programs: only when no floating-point constant folding took part - its rounding is decided by the float clause)
@@ -238,6 +241,14 @@ def install(rec, judge):
             if result is None or result is expr:
                 raise contracts.Skip("no-change")
             STEPS[0] += 1
+            judge.cur_types = None
+            try:
+                tb, ta = expr.get_type(), result.get_type()
+                if tb.kind in ("float", "complex") and ta.kind in ("float", "complex") and not tb.is_same(ta) and tb.bits is not None and ta.bits is not None:
+                    judge.type_changed = True  # the rule replaced a node by one of another precision (mixed-precision graphs only)
+                    judge.cur_types = (str(tb), str(ta))
+            except Exception:
+                pass
             if rule == "upcast" and expr.operands[0].kind == "downcast":
                 judge.updown_fired = True
             if result.kind == "constant" and expr.operands and all(getattr(o, "kind", None) == "constant" for o in expr.operands):
@@ -268,7 +279,12 @@ FLOAT_CONSTS = [0, 1, 2, -1, 0.5, -0.5, 3, 1.5, 0.0, 1.0, -0.0, 2.0, 4, 0.25, "l
 class Gen:
     def __init__(self, ctx, rnd, ftype):
         self.ctx, self.rnd = ctx, rnd
-        self.syms = [ctx.symbol(n, ftype) for n in "xyz"[: rnd.randint(1, 3)]]
+        names = "xyz"[: rnd.randint(1, 3)]
+        if isinstance(ftype, (list, tuple)):
+            # mixed precision: each symbol draws its own type
+            self.syms = [ctx.symbol(n, rnd.choice(ftype)) for n in names]
+        else:
+            self.syms = [ctx.symbol(n, ftype) for n in names]
         self.pool_f = list(self.syms)
         self.pool_b = []
 
@@ -410,7 +426,7 @@ def task_programs(params, rec):
     targets = [None, None, None, fa.targets.python, fa.targets.numpy, fa.targets.stablehlo, fa.targets.xla_client, fa.targets.cpp, xt]
     signal.signal(signal.SIGALRM, _alarm)
     for i in range(params["n"]):
-        ftype = rnd.choice(["float32", "float64", "float", "float32", "float64"])
+        ftype = rnd.choice(["float32", "float64", "float", "float32", "float64", ["float32", "float64"]])
         ctx = fa.Context(paths=[fa.algorithms])
         g = Gen(ctx, rnd, ftype)
         try:
@@ -424,6 +440,7 @@ def task_programs(params, rec):
         judge.flagged = False
         judge.folded = False
         judge.updown_fired = False
+        judge.type_changed = False
         judge.seen = set()
         step_flagged = False
         signal.alarm(60)
@@ -448,7 +465,7 @@ def task_programs(params, rec):
             tb = traceback.extract_tb(ex.__traceback__)
             loc = f"{tb[-1].filename.split('/')[-1]}:{tb[-1].name}"
             rec.violation(f"program:raises:{type(ex).__name__}@{loc}", dict(before=describe(e), target=getattr(tgt, "__name__", str(tgt)), deep_first=deep_first,
-                                                                          exc=f"{type(ex).__name__}: {ex}"[:300], symbol_type=ftype))
+                                                                          exc=f"{type(ex).__name__}: {ex}"[:300], symbol_type=str(ftype)))
             continue
         finally:
             signal.alarm(0)
@@ -461,6 +478,11 @@ def task_programs(params, rec):
         rec.count("programs:nontrivial")
         if step_flagged:
             rec.count("programs:attributed-to-step-violation")
+            continue
+        if judge.type_changed or isinstance(ftype, (list, tuple)) and len({str(s_.operands[1]) for s_ in g.syms}) > 1:
+            # a rule changed the static precision of a node (mixed-precision graph): every such step is judged by the step monitor
+            # (KF-C04-mixed-precision-retyping); the whole-program float comparison would only repeat it
+            rec.count("programs:mixed-precision-judged-by-the-step-monitor-only")
             continue
         judge.judge(e, e2, "program", "whole:" + (getattr(tgt, "__name__", "rewrite-only").split(".")[-1] if tgt is not None else "rewrite-only"))
         if i < 3:
